@@ -24,6 +24,11 @@ import (
 //	hist <own> <steps> | ok r=<r>,<r>,.. own=<hex>,<hex>,..   a history of calls on ONE instance; steps = ';'-separated
 //	                                                        <peer index>:<kind>:<pv> (same index = same node object = same
 //	                                                        cache entry); r per step, own = the instance's list after each step
+//	accenc <own> <tablepv|none> <reqkind> <reqpv> <exhaust> <n> | ok enc=<0|1|?> / err
+//	     a full protocol instance (own versions) gets a real OFFER of n fresh keys through handleTalkRequest from a peer whose
+//	     CURRENT record (seq 2) carries reqkind/reqpv, while the routing table holds an OLDER record (seq 1) of the same
+//	     identity advertising tablepv (none: the peer is not in the table); exhaust=1: no inbound slot is free.
+//	     enc = which ACCEPT encoding the reply is in (1: n verdict bytes, 0: a bitlist of n bits)
 //	live <a> <b> <n> | ok va=<r> vb=<r> offer=<..> find=<..>  two real instances over loopback UDP (offer A->B of n bytes, large find-content B<-A)
 func init() { registry["C19"] = runC19 }
 
@@ -244,6 +249,74 @@ func c19randSteps(c *Ctx, n int) []c19step {
 	return out
 }
 
+func c19accenc(c *Ctx, own []byte, tablePv string, reqKind string, reqPv []byte, exhaust bool, n int) {
+	q := make(chan *portalwire.ContentElement, 16)
+	R, err := portalwire.VerifONewNode(portalwire.VerifONodeConfig{Key: c19key(c), Versions: own, MaxUtpConn: 1, Storage: storage.NewMockStorage(), ContentQueue: q})
+	if err != nil {
+		panic(err)
+	}
+	defer R.Stop()
+	ex := 0
+	if exhaust {
+		ex = 1
+	}
+	head := fmt.Sprintf("accenc %s %s %s %s %d %d", hx(own), tablePv, reqKind, hx(reqPv), ex, n)
+	c.Count("accenc")
+	pk := c19key(c)
+	if tablePv != "none" {
+		old := c19recordSeq(pk, "list", unhx(tablePv), 1)
+		R.P.AddEnr(old)
+		found := false
+		for _, b := range R.P.RoutingTableInfo() {
+			for _, id := range b {
+				if id == "0x"+old.ID().String() {
+					found = true
+				}
+			}
+		}
+		if !found {
+			c.Emit("%s | err 9", head)
+			return
+		}
+		c.Count("accenc_stale_table_entry")
+	}
+	req := c19recordSeq(pk, reqKind, reqPv, 2)
+	if exhaust {
+		p, ok := R.InboundPermit()
+		if !ok {
+			panic("c19: cannot take the only inbound permit")
+		}
+		defer p.Release()
+		c.Count("accenc_exhausted")
+	}
+	keys := make([][]byte, n)
+	for i := range keys {
+		keys[i] = append([]byte("c19-accenc-"), c.Rng.Bytes(8)...)
+	}
+	ob, err := (&portalwire.Offer{ContentKeys: keys}).MarshalSSZ()
+	if err != nil {
+		panic(err)
+	}
+	var resp []byte
+	if pn, msg := guard(func() { resp = R.HandleTalkRequest(req, R.Addr(), append([]byte{portalwire.OFFER}, ob...)) }); pn {
+		c.Emit("%s | panic %s", head, msg)
+		return
+	}
+	if len(resp) < 7 || resp[0] != portalwire.ACCEPT {
+		c.Emit("%s | err 1", head)
+		return
+	}
+	body := resp[7:]
+	enc := "?"
+	switch len(body) {
+	case n:
+		enc = "1"
+	case n/8 + 1:
+		enc = "0"
+	}
+	c.Emit("%s | ok enc=%s", head, enc)
+}
+
 func c19subset(mask int, base []byte) []byte {
 	out := []byte{}
 	for i, v := range base {
@@ -300,6 +373,11 @@ func c19replay(c *Ctx, lines []string) {
 			c19frame(c, ka, kb, unhx(f[1]), unhx(f[2]), unhx(f[3]))
 		case "hist":
 			c19hist(c, unhx(f[1]), c19parseSteps(f[2]))
+		case "accenc":
+			var ex, n int
+			fmt.Sscan(f[5], &ex)
+			fmt.Sscan(f[6], &n)
+			c19accenc(c, unhx(f[1]), f[2], f[3], unhx(f[4]), ex == 1, n)
 		case "live":
 			var n int
 			fmt.Sscan(f[3], &n)
@@ -380,6 +458,29 @@ func runC19(c *Ctx) {
 			c19gos(c, ka, a2, "list", b2)
 			c19sym(c, ka, kb, a2, b2)
 		}
+	}
+	// which encoding a reply is in: stale routing-table record vs the record of the request; exhausted inbound slots
+	for _, ex := range []bool{false, true} {
+		c19accenc(c, []byte{0, 1}, "00", "list", []byte{0, 1}, ex, 3) // table says v0, the peer now speaks v1
+		c19accenc(c, []byte{0, 1}, "0001", "list", []byte{0}, ex, 3)  // table says v1, the peer now speaks v0 only
+		c19accenc(c, []byte{0, 1}, "none", "list", []byte{0}, ex, 4)
+		c19accenc(c, []byte{0, 1}, "none", "list", []byte{0, 1}, ex, 4)
+		c19accenc(c, []byte{0, 1}, "0001", "missing", nil, ex, 5) // now without a pv entry: own base version
+	}
+	c19accenc(c, []byte{1, 0}, "00", "missing", nil, false, 3)
+	c19accenc(c, []byte{0, 1}, "0001", "list", []byte{5}, false, 3)
+	nacc := 4
+	if c.Tier == "thorough" {
+		nacc = 60
+	}
+	for i := 0; i < nacc; i++ {
+		pvs := [][]byte{{0}, {1}, {0, 1}, {1, 0}}
+		tp := []string{"none", "00", "01", "0001"}[r.Intn(4)]
+		kind := "list"
+		if r.Intn(5) == 0 {
+			kind = "missing"
+		}
+		c19accenc(c, [][]byte{{0, 1}, {1, 0}, {0}, {1}}[r.Intn(4)], tp, kind, pvs[r.Intn(4)], r.Intn(3) == 0, 2+r.Intn(6))
 	}
 	// live pairs: every pairing of subsets of {0,1,2} that shares 0 or 1 (thorough), a rotating sample in quick
 	type pair struct{ a, b []byte }
